@@ -1059,6 +1059,13 @@ def judge_cors(ops, impl, part):
         served = base.startswith('user:') or base in ('options', 'trace')
         node_methods = dec_methods(f['methods'])
         allow = decB(f['allow']).decode('latin-1') if f['allow'] != '-' else ''
+        if f['node'] != '-':
+            # the route's methods are those the HISTORY of Handle/Remove/Clean leaves (the route table of the judge), not what
+            # the implementation's own bookkeeping reports
+            ms = r.method_set(decB(f['node']))
+            if ms is not None:
+                node_methods = [m if isinstance(m, str) else m.decode('latin-1') for m in ms]
+                allow = ', '.join(node_methods)
         exp = cors_expect(cfg, method, path, hdrs, node_methods, allow, served)
         acao = got.get('Access-Control-Allow-Origin')
         if part == 'C11':
